@@ -169,7 +169,8 @@ CHECKS['C06'] = {
     'technique': ('hybrid: deductive slice proof (own VC generator + z3) of the print-space fold and margin arithmetic of to_altoxml_string for any number of blocks; '
                   'bounded ALTO export/import contract on real lxml over a structured grid + exhaustive order-conversion check'),
     'text': ('PROVED for all block lists: print space = bounding box of the text blocks (empty box for no blocks), non-negative size, integer attributes, and for integer '
-             'block coordinates the four margins and the print space tile the page.  '
+             'block coordinates the four margins and the print space tile the page; and, for every character table / transcription / number of classes, the transcription -> label '
+             'mapping gives one label per character, each a class index below the blank (70 obligations).  '
              'BOUNDED: export never raises; per block/line exactly one TextLine in order with String CONTENTs = transcription.split() (logical order on Arabic lines) in the '
              'aligned and the fallback branch; integer geometry for fractional coordinates; WC in [0,1]; only lines below min confidence dropped; print space = bounding box, '
              'margins tile the page up to integer truncation; re-import gives the same words - for 20 transcriptions (blank/NBSP/tab/thin/ideographic/zero-width spaces, '
